@@ -10,7 +10,7 @@ import random
 
 from . import common as C
 
-NSHAPES = 16
+NSHAPES = 19
 # what each shape declares = borrows when the code is right (mirror of dispatch_dom.rs)
 RW = {
     0: (["Entities", "A"], []), 1: (["Entities"], ["A"]), 2: (["Entities", "A", "B"], []),
